@@ -7,7 +7,7 @@ import math
 import numpy as np
 
 from ..alph import Rx, Ry, Rz
-from ..core import CaseResult, variants
+from ..core import CaseResult, cross_dirty, variants
 
 PROP = "C10"
 LEVEL = "exploration"
@@ -108,6 +108,13 @@ def check_case(case):
             variants(r, key + ":detector_to_lab", detector.detector_to_lab, a3, pos, 1e-11, 1e-4, skip=nolist if pos == 7 else (), dev=lambda a, b: float(np.max(np.abs(np.asarray(a, float) - np.asarray(b, float)))) / 135.0)
         for pos in range(3):
             variants(r, key + ":detect_tilt", tools.detect_tilt, [tx, ty, tz], pos, 1e-12, 1e-6)
+        # interaction: one g-vector work array seen by one function for one reflection, refilled in place, then seen by another function
+        eta2 = eta + 1.3
+        v2 = np.array([math.cos(tth), -math.sin(tth) * math.sin(eta2), math.sin(tth) * math.cos(eta2)])
+        Gt2 = 2 * math.pi / 0.5 * (v2 - np.array([1.0, 0, 0]))
+        rest = a1[1:]
+        cross_dirty(r, key + ":Gt-family", [("det_coor", lambda b_: detector.det_coor(b_, *rest)), ("det_v", lambda b_: detector.det_v(b_, *rest)),
+                                           ("tth2", lambda b_: tools.tth2(b_, 0.5))], Gt2, Gt)
     r.transitions = r.evals
     return r
 
